@@ -10,8 +10,9 @@ import Glom.Model.C18Slice
       brackets.  A literal argument is one atomic token `lit v` (its `bbrepr`
       text; that `eval` gives `v` back is CPython's, trusted); a nested T
       argument is spelled out by the same formatter (`bbrepr(t)` is `repr(t)`).
-      The three places repaired by commit 0224102 are switched by the extracted
-      flags `FmtFacts` so that the model is the code that exists either way.
+      The three places repaired by commit 0224102 and the root handling of
+      `_format_path` (commit 2a7aadd) are switched by the extracted flags `FmtFacts`
+      so that the model is the code that exists either way.
     * `eval(repr(x))` in a namespace with T, S, A, Path                 → `parseObj`
       a parser for exactly that expression grammar: `.name`, `.__('name')`,
       `.__star__()`, `[index]` (scalar / slice / tuple of those, Python's
@@ -20,7 +21,8 @@ import Glom.Model.C18Slice
       `TType.__getattr__` rejects it.
     * `TType.__getstate__` / `__setstate__`                             → `getstate`, `setstate`
     * `Path.__init__` (flattening of Path / T parts, `'P'` for everything
-      else, the first part may carry any root, later T parts must be rooted at
+      else, the first part — a T or, since commit 9a9d3e1, a Path — may carry any
+      root, later parts must be rooted at
       T, `_t_child`'s restriction on `A`)                               → `pathInit`
     * `Path.__len__`, `__eq__`, `values`, `items`, `startswith`, `from_t`,
       `__getitem__` on the flat tuple `__ops__ = (root, op, arg, op, arg, …)`
@@ -92,6 +94,8 @@ structure FmtFacts where
   dunderGuard : Bool        -- '.' branch: `if arg.startswith('__')` → `.__(%s)`
   tupleEmptyParen : Bool    -- '[' branch: `if not arg: index = '()'`
   singletonComma : Bool     -- '[' branch: `if len(arg) == 1: index += ','`
+  pathRootAware : Bool      -- `_format_path(t_path, root)`: Path.__repr__ / the 'P' branch pass the root,
+                            -- a root other than T is written as (the start of) the first part
   deriving DecidableEq, Repr
 
 /-- `sep.join(pieces)` on token lists -/
@@ -141,30 +145,54 @@ def groupSteps {α} (isSeg : α → Bool) : List α → List (List α ⊕ α)
       | .inl g :: rest => .inl (x :: g) :: rest
       | rest => .inl [x] :: rest
 
-/-- the text of one part of `Path(…)`: `_format_t(part)` (default root `T`) for a run, `repr(part)` for a segment -/
-def groupToks {L} : List (Step L × List (Tok L)) ⊕ (Step L × List (Tok L)) → List (Tok L)
-  | .inl g => Tok.root "T" :: g.flatMap (fun x => x.2)
+/-- the text of one part of `Path(…)`: `_format_t(part, root)` for a run, `repr(part)` for a segment -/
+def groupToks {L} (root : String) :
+    List (Step L × List (Tok L)) ⊕ (Step L × List (Tok L)) → List (Tok L)
+  | .inl g => Tok.root root :: g.flatMap (fun x => x.2)
   | .inr x => x.2
 
-/-- `_format_path(t_path)` on steps whose own tokens are already formatted: a lone T run is
-    printed by `_format_t` (reading 6 of DESIGN.md), anything else as `Path(part, …)`;
-    the T sub-expressions are printed with root `T` whatever the real root is -/
-def assemblePath {L} (xs : List (Step L × List (Tok L))) : List (Tok L) :=
+/-- `_format_t(part, root if n == 0 else T)`: only the first part can carry the root -/
+def partToks {L} (root : String) :
+    List (List (Step L × List (Tok L)) ⊕ (Step L × List (Tok L))) → List (List (Tok L))
+  | [] => []
+  | g :: rest => groupToks root g :: rest.map (groupToks "T")
+
+/-- the root `_format_path` works with: before commit 2a7aadd it was not passed (default `T`) -/
+def effRoot (aware : Bool) (root : String) : String := if aware then root else "T"
+
+/-- `first_root`: a root other than T needs a T run as first part — an empty one is inserted
+    (`path_parts.append(cur_t_path)` with `cur_t_path == []`) when the path starts with a
+    plain segment or has no step at all -/
+def withRootPart {α} (r : String) (groups : List (List α ⊕ α)) : List (List α ⊕ α) :=
+  if r != "T" then
+    match groups with
+    | .inl _ :: _ => groups
+    | _ => .inl [] :: groups
+  else groups
+
+/-- `_format_path(t_path, root)` on steps whose own tokens are already formatted: a lone T run is
+    printed by `_format_t(cur_t_path, root)` (reading 6 of DESIGN.md), anything else as
+    `Path(part, …)` whose first part carries the root and whose other T runs are rooted at `T` -/
+def assemblePath {L} (aware : Bool) (root : String) (xs : List (Step L × List (Tok L))) :
+    List (Tok L) :=
   match groupSteps (fun x => x.1.isSeg) xs with
-  | [.inl g] => Tok.root "T" :: g.flatMap (fun x => x.2)
-  | groups => [Tok.name "Path", Tok.par (joinSep .comma (groups.map groupToks))]
+  | [.inl g] => Tok.root (effRoot aware root) :: g.flatMap (fun x => x.2)
+  | groups =>
+    [Tok.name "Path", Tok.par (joinSep .comma
+      (partToks (effRoot aware root) (withRootPart (effRoot aware root) groups)))]
 
 /-- `_format_t(path, root)` on steps whose own tokens are already formatted:
     the first `'P'` op hands the whole path to `_format_path` -/
-def assembleT {L} (root : String) (xs : List (Step L × List (Tok L))) : List (Tok L) :=
-  if xs.any (fun x => x.1.isSeg) then assemblePath xs
+def assembleT {L} (aware : Bool) (root : String) (xs : List (Step L × List (Tok L))) :
+    List (Tok L) :=
+  if xs.any (fun x => x.1.isSeg) then assemblePath aware root xs
   else Tok.root root :: xs.flatMap (fun x => x.2)
 
 mutual
   /-- `bbrepr(arg)` -/
   def fmtArg {L} (F : FmtFacts) : Arg L → List (Tok L)
     | .lit v => [.lit v]
-    | .t root steps => assembleT root (steps.map (fun s => (s, fmtStep F s)))
+    | .t root steps => assembleT F.pathRootAware root (steps.map (fun s => (s, fmtStep F s)))
   termination_by a => sizeOf a
   decreasing_by all_goals c18_dec
   /-- `_format_slice(x)` -/
@@ -203,15 +231,15 @@ def fmtSteps {L} (F : FmtFacts) (steps : List (Step L)) : List (Step L × List (
 
 /-- `TType.__repr__`: `_format_t(t_path[1:], t_path[0])` -/
 def fmtT {L} (F : FmtFacts) (root : String) (steps : List (Step L)) : List (Tok L) :=
-  assembleT root (fmtSteps F steps)
+  assembleT F.pathRootAware root (fmtSteps F steps)
 
-/-- `Path.__repr__`: `_format_path(self.path_t.__ops__[1:])` -/
-def fmtPath {L} (F : FmtFacts) (steps : List (Step L)) : List (Tok L) :=
-  assemblePath (fmtSteps F steps)
+/-- `Path.__repr__`: `_format_path(self.path_t.__ops__[1:], self.path_t.__ops__[0])` -/
+def fmtPath {L} (F : FmtFacts) (root : String) (steps : List (Step L)) : List (Tok L) :=
+  assemblePath F.pathRootAware root (fmtSteps F steps)
 
 def reprObj {L} (F : FmtFacts) : Obj L → List (Tok L)
   | .tobj root steps => fmtT F root steps
-  | .pobj _ steps => fmtPath F steps
+  | .pobj root steps => fmtPath F root steps
 
 /-! ### `eval(repr(x))`: the parser -/
 
@@ -434,6 +462,7 @@ def pathInit {L} (parts : List (Part L)) : Option (String × List (Step L)) :=
   match parts with
   | [] => some ("T", [])
   | .texpr r s :: others => others.foldlM pathStep (r, s)   -- isinstance(path_parts[0], TType): offset = 1
+  | .path r s :: others => others.foldlM pathStep (r, s)    -- a Path first part stands for its path_t
   | parts => parts.foldlM pathStep ("T", [])
 
 /-- one positional argument of `Path( … )`: a literal, or a T expression -/
@@ -526,10 +555,12 @@ def pFromT {α} (ops : List (Cell α)) : List (Cell α) :=
   | _ => ops
 
 /-- `Path(p, q)` for two Path objects given by their ops: `Path.__init__` with `path_t = T`,
-    every step of each part appended by `_t_child`; `none` is the ValueError
+    the first part is used as it is (root included), every step of the second appended by
+    `_t_child`; `none` is the ValueError
     ('path segment must be path from T') -/
 def concatFlat {α} [DecidableEq α] (p q : List (Cell α)) : Option (List (Cell α)) :=
-  if p.take 1 = [.root "T"] ∧ q.take 1 = [.root "T"] then some (.root "T" :: (p.drop 1 ++ q.drop 1))
+  -- the first part keeps its root (commit 9a9d3e1); every later part must be rooted at T
+  if q.take 1 = [.root "T"] then some (p.take 1 ++ (p.drop 1 ++ q.drop 1))
   else none
 
 /-- read a flat ops tuple back as (root, steps) -/
